@@ -170,9 +170,9 @@ Theorem C04_shape_apply_to_file_try :
   try_of (calls_only_list tk_apply_to_file) = [expected_apply_try].
 Proof. vm_compute. reflexivity. Qed.
 
-(* (b) what the events do not show *)
-Theorem C04_src_seek_sites : apply_seek_sites = expected_seek_sites.
-Proof. reflexivity. Qed.
+(* (b) what the events do not show (the seek targets of apply_to_file and
+   the test between its two seeks are used, not compared literally, in
+   C04_apply_to_file_is_source below) *)
 Theorem C04_src_getitem_args : getitem_tfld_args = expected_getitem_args.
 Proof. reflexivity. Qed.
 Theorem C04_src_run_probe_args : forall len,
@@ -194,22 +194,24 @@ Proof. repeat split; reflexivity. Qed.
    pieces, are the model functions - for all inputs *)
 Theorem C04_apply_to_file_is_source : forall H A L W tsw c since pos0,
   ap_interp apply_seek_sites (lenZ c) pos0 (run H A L W tsw c since pos0)
-            true (try_of (calls_only_list tk_apply_to_file))
+            true apply_body_test (try_of (calls_only_list tk_apply_to_file))
   = apply_to_file H A L W tsw c since pos0.
 Proof.
-  intros. rewrite C04_shape_apply_to_file_try, C04_src_seek_sites.
-  apply ap_interp_correct.
+  intros. rewrite C04_shape_apply_to_file_try. unfold apply_to_file.
+  destruct (run H A L W tsw c since pos0); cbn; rewrite ?Z.add_0_r;
+    reflexivity.
 Qed.
 
 (* destructive=False: a successful search puts the file back where it was,
    the four give-up handlers still seek to 0 / the end of the file *)
 Theorem C04_apply_to_file_nd_is_source : forall H A L W tsw c since pos0,
   ap_interp apply_seek_sites (lenZ c) pos0 (run H A L W tsw c since pos0)
-            false (try_of (calls_only_list tk_apply_to_file))
+            false apply_body_test (try_of (calls_only_list tk_apply_to_file))
   = apply_to_file_nd H A L W tsw c since pos0.
 Proof.
-  intros. rewrite C04_shape_apply_to_file_try, C04_src_seek_sites.
-  apply ap_interp_correct_nd.
+  intros. rewrite C04_shape_apply_to_file_try. unfold apply_to_file_nd.
+  destruct (run H A L W tsw c since pos0); cbn; rewrite ?Z.add_0_r;
+    reflexivity.
 Qed.
 
 Theorem C04_run_is_source : forall H A L W tsw c since pos0,
